@@ -102,11 +102,12 @@ def main():
     outdir = os.path.join(common.SCRATCH, 'out')
     os.makedirs(outdir, exist_ok=True)
     procs = []
-    for s in range(nshards):
+    first = int(os.environ.get('VT_SHARD_FROM', '0') or 0)      # (maintenance: run shards first..first+nshards-1 of a larger run)
+    for s in range(first, first + nshards):
         out = os.path.join(outdir, 'shard%d.json' % s)
         log = open(os.path.join(outdir, 'shard%d.log' % s), 'w')
         p = subprocess.Popen([sys.executable, '-W', 'ignore', '-m', 'vt.run', '--shard', prop, tier,
-                              str(seed), str(s), str(nshards), out],
+                              str(seed), str(s), str(first + nshards), out],
                              stdout=log, stderr=subprocess.STDOUT, cwd=VERIF)
         procs.append((s, p, out, log))
     timeout = params.get('watchdog_s', 3000) + 60
